@@ -177,10 +177,29 @@ func validateTypeRestrictions(typesys *typesystem.TypeSystem, tk *openfgav1.Tupl
 
 // validateCondition returns an error if the condition of the tuple is required but not present,
 // or if the tuple provides a condition but it is invalid according to the model.
+// restrictionMatchesUser reports whether the user has the shape the type restriction describes:
+// `type:*` for a wildcard restriction, `type:id#relation` for a userset restriction and a plain
+// `type:id` otherwise. A condition belongs to one restriction, so it must be looked up on the
+// restriction that matches the whole user, not on any restriction that shares the user's type.
+func restrictionMatchesUser(ref *openfgav1.RelationReference, user string) bool {
+	if ref.GetType() != tuple.GetType(user) {
+		return false
+	}
+
+	userRelation := tuple.GetRelation(user)
+
+	switch {
+	case ref.GetWildcard() != nil:
+		return userRelation == "" && tuple.IsTypedWildcard(user)
+	case ref.GetRelation() != "":
+		return userRelation == ref.GetRelation()
+	default:
+		return userRelation == "" && !tuple.IsTypedWildcard(user)
+	}
+}
+
 func validateCondition(typesys *typesystem.TypeSystem, tk *openfgav1.TupleKey) error {
 	objectType := tuple.GetType(tk.GetObject())
-	userType := tuple.GetType(tk.GetUser())
-	userRelation := tuple.GetRelation(tk.GetUser())
 
 	typeRestrictions, err := typesys.GetDirectlyRelatedUserTypes(objectType, tk.GetRelation())
 	if err != nil {
@@ -189,28 +208,9 @@ func validateCondition(typesys *typesystem.TypeSystem, tk *openfgav1.TupleKey) e
 
 	if tk.GetCondition() == nil {
 		for _, directlyRelatedType := range typeRestrictions {
-			if directlyRelatedType.GetCondition() != "" {
-				continue
+			if directlyRelatedType.GetCondition() == "" && restrictionMatchesUser(directlyRelatedType, tk.GetUser()) {
+				return nil
 			}
-
-			if directlyRelatedType.GetType() != userType {
-				continue
-			}
-
-			if directlyRelatedType.GetRelationOrWildcard() != nil {
-				if directlyRelatedType.GetRelation() != "" && directlyRelatedType.GetRelation() != userRelation {
-					continue
-				}
-
-				if directlyRelatedType.GetWildcard() != nil && !tuple.IsTypedWildcard(tk.GetUser()) {
-					continue
-				}
-			} else if tuple.IsTypedWildcard(tk.GetUser()) {
-				// This is a wildcard tuple but the directlyRelatedType tuple is not for wildcard.
-				continue
-			}
-
-			return nil
 		}
 
 		return &tuple.InvalidConditionalTupleError{
@@ -233,7 +233,7 @@ func validateCondition(typesys *typesystem.TypeSystem, tk *openfgav1.TupleKey) e
 
 	validCondition := false
 	for _, directlyRelatedType := range typeRestrictions {
-		if directlyRelatedType.GetType() == userType && directlyRelatedType.GetCondition() == tk.GetCondition().GetName() {
+		if restrictionMatchesUser(directlyRelatedType, tk.GetUser()) && directlyRelatedType.GetCondition() == tk.GetCondition().GetName() {
 			validCondition = true
 			break
 		}
